@@ -224,6 +224,18 @@ func runWin(w stepWin, ops []wop, keyed bool) string {
 		if rows[0].Slot != nil && rows[0].Slot.Start != nil {
 			s, e = rows[0].Slot.Start.UnixNano(), rows[0].Slot.End.UnixNano()
 		}
+		// every row of a batch carries the batch's interval (window_start()/window_end() of the emitted result are
+		// taken from the rows): a row that disagrees with the first one decides what is reported
+		for _, r := range rows[1:] {
+			var rs, re int64
+			if r.Slot != nil && r.Slot.Start != nil && r.Slot.End != nil {
+				rs, re = r.Slot.Start.UnixNano(), r.Slot.End.UnixNano()
+			}
+			if rs != s || re != e {
+				s, e = rs, re
+				break
+			}
+		}
 		var bb strings.Builder
 		if keyed {
 			fmt.Fprintf(&bb, " b %s %d %d %d", rowKey(rows[0]), s, e, len(rows))
